@@ -80,9 +80,14 @@ def build_packet(it):
     elif ckind == 5 or (ckind == 4 and not L):   # bit flip in the CRC-32
         crc ^= 1 << (cbit % 32)
     abort = it["abort"]
+    abort_alias = False
     if abort >= 0:
         cut = min(abort, L + 4)
         body = list(sent_payload) + [(crc >> (8 * i)) & 0xFF for i in range(4)]
+        # the recorded known finding: the payload is complete, the CRC-32 is cut short, and the BYTE VALUES of the
+        # end-bad framing symbols that take the place of the missing CRC bytes equal those bytes
+        framing = [R.EDB, R.EDB, R.EDB, R.EPF]
+        abort_alias = L <= cut < L + 4 and all(framing[j - cut] == body[j] for j in range(cut, L + 4))
         syms = [(R.SDP, 1)] * 3 + [(R.EPF, 1)] + [(b, 0) for b in body[:cut]] + [(R.EDB, 1)] * 3 + [(R.EPF, 1)]
         dw = R.pack_symbols(syms)
     else:
@@ -102,7 +107,7 @@ def build_packet(it):
             out += [_inv_word(kind, data, prev, crc_fill)] * n
         if i < len(words):
             out.append(words[i])
-    info = dict(L=L, hdr_ok=hdr_ok, aborted=abort >= 0, payload=bytes(sent_payload),
+    info = dict(L=L, hdr_ok=hdr_ok, aborted=abort >= 0, abort_alias=abort_alias, payload=bytes(sent_payload),
                 crc_ok=(crc == R.usb3_crc32(bytes(sent_payload))) and abort < 0,
                 inv_positions=sorted(ins), nwords=len(words), ckind=ckind)
     return out, info
@@ -212,6 +217,8 @@ def judge(stream, packets, trace):
                 sig = "invalid-word-taken-as-crc" if not stream[t][0] else "good-packet-reported-bad"
             elif p["L"] == 0 and not p["aborted"]:
                 sig = "zlp-bad-crc-reported-good"
+            elif p["aborted"] and p.get("abort_alias"):
+                sig = "aborted-dpp-framing-symbol-equals-missing-crc-byte-reported-good"
             else:
                 sig = "bad-packet-reported-good"
             return fail(f"{desc}: expected {'good' if exp_good else 'bad'}, reported {kind} in cycle {t}", signature=sig)
@@ -279,6 +286,22 @@ class DataRxSub(Sub):
             abort = draw(weighted([(-1, 9), (0, 1), (1, 1)]))
             if abort == 1:
                 abort = draw(st.integers(0, L + 4))
+            if not is_long and L >= 2 and cor[0] == 0 and draw(weighted([(0, 14), (1, 1)])):
+                # aborted one byte before the end of the CRC-32, with a payload whose last CRC byte has the byte value
+                # of the end-bad framing symbol that replaces it (two payload bytes searched, deterministic)
+                pl = list(body["payload"])
+                found = False
+                for a in range(256):
+                    for b in range(256):
+                        pl[0], pl[1] = (pl[0] + a) & 0xFF, (pl[1] + (1 if a or b else 0)) & 0xFF
+                        if (R.usb3_crc32(bytes(pl)) >> 24) == R.EDB:
+                            found = True
+                            break
+                    if found:
+                        break
+                if found:
+                    body = dict(payload=pl)
+                    abort = L + 3
             return dict(k="dp", **body,
                         hdr=[draw(bits(27)), draw(bits(16)), draw(bits(32)), draw(bits(3)), draw(bits(8))],
                         cor=list(cor), inv=inv, abort=abort)
